@@ -29,6 +29,7 @@ var reParamsBits = regexp.MustCompile(`[A-Za-z0-9_.:*]*Params\(\)\.BitSize`)
 func normBig(s string) string {
 	s = reParamsN.ReplaceAllString(s, "N")
 	s = reParamsBits.ReplaceAllString(s, "BITS")
+	s = strings.ReplaceAll(s, "global:sm2P256.CurveParams.N", "N")
 	s = strings.ReplaceAll(s, "global:sm2P256.N", "N")
 	return s
 }
